@@ -21,7 +21,8 @@ var anchored = []string{"pkg/dhcp/server.go", "pkg/dhcp/pool.go", "pkg/dhcpv6/se
 
 func TestMain(m *testing.M) {
 	run = vk.Start("C02", "exploration")
-	run.Rule("message histories from k<=4 clients against the real DHCPv4 / DHCPv6 handlers on tiny pools (v4 /30 /29 /28, v6 /126 /125 and 2-8 delegated prefixes), interleaved with virtual-time steps {lease/2, lease+1ns, 61 s cleanup tick; 59 s and 1 s in scenarios and walks}: (1) directed minimal scenarios, (2) breadth-first exhaustive exploration - a 15-symbol core alphabet (2 clients x {DISCOVER/SOLICIT, REQUEST, renew, RELEASE, DECLINE, rapid-commit} + hostile REQUEST for a foreign address / the gateway, DECLINE naming the other client's address + time) and an 18-symbol DHCPv4 / DHCPv6 decline/release alphabet (DECLINE and RELEASE of the own value and naming an address leased to / offered but not acknowledged to the other client, DECLINE of a free address, REQUEST init-reboot / selecting / renew naming the other client's address, pool cycling, one time step) to depth 5 / 6 (DHCPv4) and 4 / 5 (DHCPv6), the core alphabet to depth 5 (quick) / 6 (thorough) and the full alphabet (also REQUEST for network / broadcast / out-of-pool / never-offered addresses, init-reboot, DECLINE and RELEASE naming free and out-of-pool values and, in DHCPv6, own values under unknown IAIDs, INFORM, REBIND, CONFIRM, wrong server-id, RENEW / REQUEST naming a foreign value) to depth 3 / 4; a pool-cycling step = k fresh clients DISCOVER (and REQUEST) / SOLICIT+REQUEST / SOLICIT+rapid-commit until the server has nothing left to hand out (k <= pool size + 1, so every free-list position is visited; pools have 2-14 usable values) and then RELEASE what they got, a history being extended only if its end state (fingerprint: lease table + circuit-id index + pool snapshot + reference table + client memory + time offsets) is new, (3) seeded random walks of 30-200 steps with 3-4 clients and per-message transport {direct, relayed, relayed+option 82}; every history ends with a 61 s step and a drain of the pool by fresh clients (once per distinct end state); (4) the v4 handlers called from 4-8 goroutines together with the expiry sweep under -race, and late renewals racing the sweep over 800 lapsed leases (child process, so that a crash is a verdict). A case = one distinct history. non-trivial = distinct history containing a REQUEST/RENEW whose address was at that moment bound or offered to a different client, or a request for an own binding after its expiry / release; concurrent part: a run in which an address changed owner or both orders of sweep and renewal occurred")
+	run.Rule("message histories from k<=4 clients against the real DHCPv4 / DHCPv6 handlers on tiny pools (v4 /30 /29 /28, v6 /126 /125 and 2-8 delegated prefixes), interleaved with virtual-time steps {lease/2, lease+1ns, 61 s cleanup tick; 59 s and 1 s in scenarios and walks}: (1) directed minimal scenarios, (2) breadth-first exhaustive exploration - a 15-symbol core alphabet (2 clients x {DISCOVER/SOLICIT, REQUEST, renew, RELEASE, DECLINE, rapid-commit} + hostile REQUEST for a foreign address / the gateway, DECLINE naming the other client's address + time) and an 18-symbol DHCPv4 / DHCPv6 decline/release alphabet (DECLINE and RELEASE of the own value and naming an address leased to / offered but not acknowledged to the other client, DECLINE of a free address, REQUEST init-reboot / selecting / renew naming the other client's address, pool cycling, one time step) to depth 5 / 6 (DHCPv4) and 4 / 5 (DHCPv6), the core alphabet to depth 5 (quick) / 6 (thorough) and the full alphabet (also REQUEST for network / broadcast / out-of-pool / never-offered addresses, init-reboot, DECLINE and RELEASE naming free and out-of-pool values and, in DHCPv6, own values under unknown IAIDs, INFORM, REBIND, CONFIRM, wrong server-id, RENEW / REQUEST naming a foreign value) to depth 3 / 4; a pool-cycling step = k fresh clients DISCOVER (and REQUEST) / SOLICIT+REQUEST / SOLICIT+rapid-commit until the server has nothing left to hand out (k <= pool size + 1, so every free-list position is visited; pools have 2-14 usable values) and then RELEASE what they got, a history being extended only if its end state (fingerprint: lease table + circuit-id index + pool snapshot + reference table + client memory + time offsets) is new, (3) seeded random walks of 30-200 steps with 3-4 clients and per-message transport {direct, relayed, relayed+option 82}; every history ends with a 61 s step and a drain of the pool by fresh clients (once per distinct end state); (4) the v4 handlers called from 4-8 goroutines together with the expiry sweep under -race, and late renewals racing the sweep over 800 lapsed leases (child process, so that a crash is a verdict); (5) pool geometries: DHCPv4 pools /30 ... /22 x gateway {first, last, middle, just above / far above host number 255} x reserved ranges {none, head and tail, a window around the gateway} and DHCPv6 address pools /64 ... /126 and prefix pools with delegation lengths below, at, across and above /64 (/48->/56 ... /64->/72, /120->/124, /126->/128; bases with non-zero low bits), plus seeded random geometries; per geometry direct probes (REQUEST init-reboot / selecting / renew, DECLINE, RELEASE; DHCPv6 REQUEST, RENEW, REBIND, CONFIRM, DECLINE, RELEASE) naming the gateway, network, broadcast, reserved addresses and the addresses / prefixes just outside the pool, from a client the server never saw and from a lease holder, then fresh clients walking the free list - completely when the pool has <= 254 (v4) / <= 256 (v6) values or in the thorough tier, otherwise at least 8 clients beyond the number of usable addresses below the gateway (v4) / 300 clients (v6) - then, after a complete walk (quick tier: of a pool with <= 126 (v4) / <= 256 (v6) values), release of one half, expiry of the other and a second complete walk. A case = one distinct history. non-trivial = distinct history containing a REQUEST/RENEW whose address was at that moment bound or offered to a different client, or a request for an own binding after its expiry / release; concurrent part: a run in which an address changed owner or both orders of sweep and renewal occurred; geometry part: a geometry whose probes were sent and whose walk went beyond the gateway's slot or exhausted the pool (v4) / bound at least two fresh clients (v6)")
+	run.Assume("PoolConfig.ReservedStart / ReservedEnd = N excludes the first / last N host numbers from the serving pool (the field's own documentation): a reserved address handed out is judged as outside the serving pool (class 'reserved'); the base address of a DHCPv6 address pool is its network (subnet-router anycast) address; a delegated prefix must have the configured delegation length, no host bits and lie inside the prefix pool, and prefixes held by different clients at the same moment must not overlap")
 	run.Assume("client identity is the MAC (v4) / DUID (v6); a circuit-id identifies exactly one client (two MACs never share an option-82 circuit-id)")
 	run.Assume("local-pool mode: no Nexus client, HTTP allocator, RADIUS, QoS or NAT manager is attached; the DHCPv6 server uses its legacy AddressPool / PrefixPool (not the integrated allocator)")
 	run.Assume("a binding enters the reference table only through an observed ACK / Reply carrying the value; its expiry is the reply's own lease time / valid lifetime (unexpired = now < expiry); replies are decoded with the insomniacslk/dhcp library, not with the code under test")
@@ -92,6 +93,36 @@ func setFloors() {
 		run.Floor("cycled_after_"+k, n)
 	}
 	run.Floor("available_again_released_value_handed_out_again", 2000)
+	// pool geometries: every class of the grid was built, probed and walked (counts of the quick tier, which do not depend on the seed)
+	run.Floor("geom_v4_geometries", 90)
+	run.Floor("geom_v4_gateway_host_number_above_255", 15)
+	run.Floor("geom_v4_probes_naming_gateway_with_host_number_above_255", 75)
+	run.Floor("geom_v4_walks_across_gateway_slot_above_255", 15)
+	run.Floor("geom_v4_exhaustive_walks_with_gateway_above_255", 6)
+	run.Floor("geom_v4_walks_reaching_exhaustion", 60)
+	run.Floor("geom_v4_second_walks_after_release_and_expiry", 40)
+	run.Floor("geom_v4_walk_clients", 5000)
+	for _, k := range []string{"REQUEST-init-reboot", "REQUEST-selecting", "REQUEST-renew", "DECLINE", "RELEASE"} {
+		for _, c := range []string{"gateway", "network", "broadcast", "outside-pool", "reserved"} {
+			run.Floor("geom_v4_probe_"+k+"_names_"+c+"_by_unknown_client", 40)
+			run.Floor("geom_v4_probe_"+k+"_names_"+c+"_by_lease_holder", 30)
+		}
+	}
+	for _, r := range []string{"none", "head-tail", "window"} {
+		run.Floor("geom_v4_reserved_"+r, 20)
+	}
+	run.Floor("geom_v6_geometries", 30)
+	run.Floor("geom_v6_address_pools_longer_than_64", 5)
+	run.Floor("geom_v6_probes_by_unknown_client", 500)
+	run.Floor("geom_v6_probes_by_lease_holder", 450)
+	for _, side := range []string{"at_or_below_64", "across_64", "above_64"} {
+		run.Floor("geom_v6_delegation_"+side, 3)
+		run.Floor("geom_v6_walks_with_two_or_more_delegations_"+side, 3)
+	}
+	run.Floor("geom_v6_walk_clients", 1500)
+	run.Floor("geom_v6_delegated_prefixes_compared_pairwise", 800)
+	run.Floor("geom_v6_walks_reaching_exhaustion", 12)
+	run.Floor("geom_v6_second_walks_after_release_and_expiry", 12)
 	run.Floor("distinct_message_classes", 60)
 	run.Floor("distinct_cycle_episodes", 300)
 }
